@@ -152,6 +152,9 @@ def quote_guards(prog, rep):
                         DQ_ = x.targets[0].id
                 if isinstance(x, ast.Assign) and isinstance(x.targets[0], ast.Name) and chv and norm(x.value) == chv and x in l.body:
                     PV = x.targets[0].id
+        if DV is not None and (SQ_ is None or DQ_ is None):
+            rep.undecided("QUOTES", fi.short, "quote state", "the scanner steps a bracket depth but keeps its quote state in some other form than two flags toggled on ' and \"", fi.loc())
+            continue
         DV, SQ_, DQ_, PV = DV or "to_consume", SQ_ or "single_quote", DQ_ or "double_quote", PV or "prev_char"
         loops = [l for l in walk_own(fi.node) if isinstance(l, ast.For) and any(isinstance(x, (ast.AugAssign, ast.Assign)) and norm(x.targets[0] if isinstance(x, ast.Assign) else x.target) == DV for x in ast.walk(l))]
         if len(loops) != 1:
